@@ -102,3 +102,33 @@ def gen_k8(rng, n):
         out.append(sc)
         meta.append({"conn": c, "arity": ar, "mode": mode})
     return out, meta
+
+
+def gen_k9(rng, n):
+    """formula-level gradients (tag 9): a connective formula, or a Forall / Exists over it, with dyadic bias/weights;
+    facts chosen so that bodies and quantifiers are unsaturated, saturated or strictly saturated"""
+    out, meta = [], []
+    while len(out) < n:
+        mode = rng.choice([0, 1, 1, 2, 2])
+        c = rng.choice([0, 1, 2])
+        ar = 2 if c == 2 else rng.choice([2, 2, 3])
+        ws = [rng.choice([F(1), F(1), F(1, 2), F(2), F(3, 4), F(3, 2)]) for _ in range(ar)]
+        b = rng.choice([F(1), F(1), F(1, 2), F(3, 2), F(2), F(3, 4)])
+        nrows = 1 if mode == 0 else rng.choice([1, 2, 3, 4])
+        polar = rng.choice([None, 1, 0])
+
+        def fact():
+            if polar is None:
+                l, u = sorted((rng.choice(G8), rng.choice(G8)))
+                return [l, u]
+            v = rng.choice([[F(1), F(1)], [F(7, 8), F(1)], [F(3, 4), F(7, 8)], [F(1, 2), F(3, 4)]])
+            return v if polar else [1 - v[1], 1 - v[0]]
+        rows = [[fact() for _ in range(ar)] for _ in range(nrows)]
+        lower = rng.choice([0, 1]) if mode == 0 else (1 - (mode == 1) if rng.random() < 0.9 else (mode == 1) * 1)
+        seeds = [rng.choice([0, 1, -1, 2]) for _ in range(1 + ar)]
+        if rng.random() < 0.5:
+            k = rng.randrange(len(seeds))
+            seeds = [1 if i == k else 0 for i in range(len(seeds))]
+        out.append([9, mode, c, [b, F(seeds[0])], [[w, F(s)] for w, s in zip(ws, seeds[1:])], rows, int(lower)])
+        meta.append({"mode": mode, "conn": c, "rows": nrows})
+    return out, meta
